@@ -726,7 +726,11 @@ func (h *vf6H) round(c *vf6Case, inner Channel, replay map[string]interface{}) *
 	if ms := time.Since(t0).Milliseconds(); ms > h.slowMs {
 		h.slowMs = ms
 	}
-	_ = runErr
+	if ms := time.Since(t0).Milliseconds(); ms > 2000 {
+		h.s.Count("slow_rounds_over_2s")
+		h.t.Logf("slow round %d ms: err=%v sent=%v ingested=%v readErr=%q writers=%v readerErr=%v op=%s", ms, runErr, out.sent, out.ingested,
+			out.readErr, proxy.wr, proxy.rdErr, op)
+	}
 
 	srcp.mu.Lock()
 	psyncs := append([]string(nil), srcp.psync...)
